@@ -462,4 +462,151 @@ theorem inttLevelsBV_eq (r : RedC) (hr : ReducOK q (redOf r)) :
     simp only [inttLevelsBV, inttLevels, tn_append, List.map_cons, LevelC.toLevel]
     rw [a1, a2, i1, i2, tn_take, tn_drop, hvn]
 
+/-! #### the schedule of `intt_avx2` -/
+
+theorem invLevel_length (r : RedC) (l : LevelC) : ∀ (n : Nat) (bs : List (List W)), bs.length ≤ n → (invLevelBV r l bs).length = bs.length / 2 := by
+  intro n
+  induction n with
+  | zero => intro bs h; have : bs = [] := List.length_eq_zero_iff.mp (by omega); subst this; rfl
+  | succ n ih =>
+    intro bs h
+    match bs with
+    | [] => rfl
+    | [_] => simp [invLevelBV]
+    | a :: b :: rest =>
+      simp only [invLevelBV, List.length_cons]
+      rw [ih rest (by simp only [List.length_cons] at h; omega)]
+      omega
+
+theorem invLevel_append (r : RedC) (l : LevelC) (B : List (List W)) :
+    ∀ (n : Nat) (A : List (List W)), A.length = 2 * n → invLevelBV r l (A ++ B) = invLevelBV r l A ++ invLevelBV r l B := by
+  intro n
+  induction n with
+  | zero => intro A h; have : A = [] := List.length_eq_zero_iff.mp (by omega); subst this; rfl
+  | succ n ih =>
+    intro A h
+    match A, h with
+    | a :: b :: rest, h =>
+      simp only [List.cons_append, invLevelBV]
+      rw [ih rest (by simp only [List.length_cons] at h; omega)]
+
+theorem invLevelwise_append_blocks (r : RedC) :
+    ∀ (asc : List LevelC) (A B : List (List W)) (c : Nat), A.length = 2 ^ asc.length * c →
+      invLevelwiseBV r asc (A ++ B) = invLevelwiseBV r asc A ++ invLevelwiseBV r asc B := by
+  intro asc
+  induction asc with
+  | nil => intro A B c _; rfl
+  | cons l ls ih =>
+    intro A B c hA
+    have hA' : A.length = 2 * (2 ^ ls.length * c) := by rw [hA, List.length_cons, pow_succ]; ring
+    simp only [invLevelwiseBV]
+    rw [invLevel_append r l B _ A hA']
+    apply ih _ _ c
+    rw [invLevel_length r l A.length A (le_refl _), hA']
+    omega
+
+theorem invLevelwise_append (r : RedC) (l1 l2 : List LevelC) (bs : List (List W)) :
+    invLevelwiseBV r (l1 ++ l2) bs = invLevelwiseBV r l2 (invLevelwiseBV r l1 bs) := by
+  induction l1 generalizing bs with
+  | nil => rfl
+  | cons l ls ih => simp only [List.cons_append, invLevelwiseBV]; rw [ih]
+
+/-- merging finished blocks pairwise, level after level (the AVX order), builds the depth-first result of the reference order -/
+theorem invLevelwise_singletons (r : RedC) :
+    ∀ (desc : List LevelC) (v : List W), v.length = 2 ^ desc.length →
+      invLevelwiseBV r desc.reverse (v.map (fun x => [x])) = [inttLevelsBV r desc v] := by
+  intro desc
+  induction desc with
+  | nil =>
+    intro v hv
+    match v, hv with
+    | [x], _ => rfl
+  | cons l rest ih =>
+    intro v hv
+    have hv' : v.length = 2 ^ (rest.length + 1) := by simpa using hv
+    obtain ⟨_, hlo, hhi⟩ := NttMath.halves_length v rest.length hv'
+    rw [List.reverse_cons, invLevelwise_append]
+    conv_lhs => rw [← List.take_append_drop (v.length / 2) v, List.map_append]
+    rw [invLevelwise_append_blocks r rest.reverse _ _ 1 (by rw [List.length_map, hlo, List.length_reverse, Nat.mul_one]), ih _ hlo, ih _ hhi]
+    simp [invLevelwiseBV, invLevelBV, inttLevelsBV]
+
+theorem invLevelwise_chunks (r : RedC) (a1 : List LevelC) :
+    ∀ (cs : List (List W)), (∀ c ∈ cs, c.length = 2 ^ a1.length) →
+      invLevelwiseBV r a1 (cs.flatten.map (fun x => [x])) = cs.map (fun c => inttLevelsBV r a1.reverse c) := by
+  intro cs
+  induction cs with
+  | nil => intro _; induction a1 with
+    | nil => rfl
+    | cons l ls ih => simpa [invLevelwiseBV, invLevelBV] using ih
+  | cons c cs ih =>
+    intro h
+    have hc := h c (by simp)
+    rw [List.flatten_cons, List.map_append,
+      invLevelwise_append_blocks r a1 _ _ 1 (by simp [hc]), ih (fun c' hc' => h c' (by simp [hc']))]
+    have := invLevelwise_singletons r a1.reverse c (by simp [hc])
+    rw [List.reverse_reverse] at this
+    rw [this]; rfl
+
+/-- **`intt_avx2` schedule lemma**: for every split `j` (`CHANGE_MODE_N = 2^j`) and every partition of the lane into `2^j`-wide
+chunks, the by-block-then-by-level order of `intt_avx2` computes the depth-first network followed by the last pass -/
+theorem inttAvx_schedule (r : RedC) (last : LevelC) (revL : List LevelC) (j : Nat) (cs : List (List W)) (hj : j ≤ revL.length)
+    (hc : ∀ c ∈ cs, c.length = 2 ^ j) (hlen : cs.flatten.length = 2 ^ revL.length) :
+    inttAvx r (revL.reverse ++ [last]) j cs
+      = List.zipWith (fun x po => iterFirst r last.m x po) (inttLevelsBV r revL cs.flatten) last.tw := by
+  unfold inttAvx
+  simp only [List.reverse_append, List.reverse_cons, List.reverse_nil, List.nil_append, List.reverse_reverse, List.singleton_append]
+  have hjl : (revL.reverse.take j).length = j := by simp [hj]
+  have hb : cs.map (fun c => (invLevelwiseBV r (revL.reverse.take j) (c.map (fun x => [x]))).flatten)
+      = cs.map (fun c => inttLevelsBV r (revL.reverse.take j).reverse c) := by
+    apply List.map_congr_left
+    intro c hcm
+    have := invLevelwise_singletons r (revL.reverse.take j).reverse c (by simp [hc c hcm, hj])
+    rw [List.reverse_reverse] at this
+    rw [this]; simp
+  rw [hb, ← invLevelwise_chunks r (revL.reverse.take j) cs (by intro c hcm; rw [hjl]; exact hc c hcm),
+    ← invLevelwise_append, List.take_append_drop]
+  have := invLevelwise_singletons r revL cs.flatten hlen
+  rw [this]; simp
+
+theorem tn_zipWith_le (f : W → W → W) (g : Nat → Nat → Nat) (B : Nat) (h : ∀ x po, x.toNat ≤ B → (f x po).toNat = g x.toNat po.toNat) :
+    ∀ (v tw : List W), AllLe B (tn v) → tn (List.zipWith f v tw) = List.zipWith g (tn v) (tn tw) := by
+  intro v
+  induction v with
+  | nil => intro tw _; simp [tn]
+  | cons x xs ih =>
+    intro tw hle
+    obtain ⟨hx, hxs⟩ := AllLe.cons (by simpa using hle : AllLe B (x.toNat :: tn xs))
+    cases tw with
+    | nil => simp [tn]
+    | cons po tw => simp only [List.zipWith_cons_cons, List.map_cons, tn] at *; rw [h x po hx, ih tw hxs]
+
+/-- **`intt_avx2`, one prime lane, whole transform** = `intt_ref` (`inttK`), for every table accepted by C07's `InvTableOK`
+(proved there for the real tables), every split and EVERY vector of 64-bit words -/
+theorem inttAvx_eq_inttK (r : RedC) (last : LevelC) (revL : List LevelC) (j : Nat) (t : TableK) (ω' ninv : ZMod q)
+    (ok : InvTableOK q t ω' ninv) (ht : t.levels = (revL.reverse ++ [last]).map LevelC.toLevel) (hrd : t.reduc = redOf r)
+    (cs : List (List W)) (hj : j ≤ revL.length) (hc : ∀ c ∈ cs, c.length = 2 ^ j) (hlen : cs.flatten.length = 2 ^ revL.length) :
+    tn (inttAvx r (revL.reverse ++ [last]) j cs) = inttK t (tn cs.flatten) := by
+  obtain ⟨hr, hl⟩ := ok
+  rw [hrd] at hr
+  have hrev : t.levels.reverse = last.toLevel :: revL.map LevelC.toLevel := by
+    rw [ht]; simp [List.map_reverse]
+  rw [hrev] at hl
+  simp only [LevelC.toLevel] at hl
+  obtain ⟨hsched, htwo, hMw, sp, htl, htw⟩ := hl
+  rw [hrd] at hsched hMw sp
+  rw [inttAvx_schedule r last revL j cs hj hc hlen]
+  unfold inttK
+  rw [hrev]
+  simp only [LevelC.toLevel]
+  have hlenr : (revL.map LevelC.toLevel).length = revL.length := List.length_map _
+  have e1 := inttLevelsBV_eq r hr revL (ω' * ω') _ cs.flatten hsched htwo hlen (allLe_u64 _)
+  obtain ⟨_, b1, _, _⟩ := inttLevels_spec (redOf r) hr (revL.map LevelC.toLevel) (ω' * ω') _ (tn cs.flatten) hsched htwo
+    (by rw [tn_length, hlen, hlenr]) (allLe_u64 _)
+  rw [← e1] at b1
+  rw [hrd, ← e1]
+  apply tn_zipWith_le _ _ _ _ _ _ b1
+  intro x po hx
+  obtain ⟨_, lx⟩ := redIf_spec (redOf r) hr (stepOf last.m last.bs) x.toNat _ hx hMw
+  exact iterFirst_eq r last.m last.bs x po (redRange_of_ok q r last.m x hr) (spmRange_of_ok q last.m last.bs _ _ sp lx)
+
 end Avx.Ntt
